@@ -6,7 +6,7 @@
 (* histories in which the buffer is reused.  C17.                             *)
 EXTENDS Ctap, Gen
 
-Caps == (1..130) \cup (254..258) \cup (1022..1026) \cup (3070..3074) \cup {64, 256, 1024, 3072, 7609}
+Caps == (1..600) \cup (1022..1026) \cup (3070..3074) \cup {1024, 3072, 7609}
 
 \* families of responses indexed by the length n of a variable member
 CpTok(n)    == [kind |-> "ClientPin", v |-> [CpRespMin EXCEPT !.pinUvAuthToken = <<Pattern(1, n)>>]]
@@ -29,9 +29,11 @@ Families ==
 
 Window == -3..2
 
+\* the capacities around which the tuned families are placed (EveryCap below uses all of Caps)
+TunedCaps == (1..130) \cup (254..258) \cup (510..514) \cup (598..600) \cup (1022..1026) \cup (3070..3074) \cup {1024, 3072, 7609}
 Tuned ==
     UNION {{[op |-> "encode2", tag |-> "tuned", resp |-> m.resp, cap |-> N, stale |-> << >>] :
-               N \in {n \in Caps : m.len - n \in Window}} : m \in Families}
+               N \in {n \in TunedCaps : m.len - n \in Window}} : m \in Families}
 
 EmptyBodies ==
     {RespCase(k, v, N, "empty-body") :
@@ -52,7 +54,22 @@ Planted ==
         c \in {x \in Tuned : x.cap \in {8, 64, 256}}, k \in {1, 4}}
     \cup {[c EXCEPT !.stale = Rep(238, c.cap), !.tag = "planted-full"] : c \in {x \in Tuned : x.cap \in {8, 64, 256}}}
 
-MC_Cases == Tuned \cup EmptyBodies \cup Smallest \cup Planted
+\* the full response of every kind against EVERY capacity up to its length + 2: the encoder runs
+\* out of room inside every member in turn (lists, nested maps, text, integers)
+FullResponses ==
+    {[kind |-> "GetInfo", v |-> GiFull(F)],
+     [kind |-> "GetInfo", v |-> [GiMin EXCEPT !.algorithms = <<<<ALG_ES256, ALG_EdDSA>>>>, !.transports = <<<<N_nfc, N_usb>>>>,
+                                             !.options = <<GiOptFull(F)>>, !.maxMsgSize = <<BN(1200)>>]],
+     [kind |-> "MakeCredential", v |-> FullOf(McRespMin, McRespOptVals)],
+     [kind |-> "GetAssertion", v |-> FullOf(GaRespMin, [GaRespOptVals EXCEPT !.attStmt = StmtPacked])],
+     [kind |-> "ClientPin", v |-> FullOf(CpRespMin, CpRespOptVals)],
+     [kind |-> "CredentialManagement", v |-> FullOf(CmRespMin, CmRespOptVals(F))]}
+EveryCap ==
+    UNION {LET len == Len(EncodeResponse(r, F)) IN
+           {[op |-> "encode2", tag |-> "every-capacity", resp |-> r, cap |-> N, stale |-> << >>] :
+               N \in {n \in Caps : n <= len + 2 /\ n <= 600}} : r \in FullResponses}
+
+MC_Cases == Tuned \cup EmptyBodies \cup Smallest \cup Planted \cup EveryCap
 
 \* two-exchange histories: long then short, short then error, error then long
 HistResps == {CpTok(0), CpTok(40), CpKeyTok(48), GaAuth(37), [kind |-> "Reset", v |-> << >>],
